@@ -180,3 +180,39 @@ def sany(module):
         return (not bad), p.stdout
     finally:
         shutil.rmtree(d, ignore_errors=True)
+
+
+def run_apalache(module, args, timeout=900):
+    """Apalache (symbolic) on a typed module of spec/: returns (ok, tail of the output).  ok = "The outcome is: NoError"."""
+    d = tempfile.mkdtemp(prefix="vapa_", dir=scratch_root())
+    try:
+        for f in os.listdir(SPEC_DIR):
+            if f.endswith(".tla"):
+                shutil.copy(os.path.join(SPEC_DIR, f), d)
+        cmd = ["apalache-mc", "check", "--out-dir=" + os.path.join(d, "out"), "--run-dir=" + os.path.join(d, "run")] + list(args) + [module + ".tla"]
+        try:
+            p = subprocess.run(cmd, cwd=d, stdout=subprocess.PIPE, stderr=subprocess.STDOUT, text=True, timeout=timeout)
+        except subprocess.TimeoutExpired:
+            return None, "timeout after %ds" % timeout
+        except FileNotFoundError:
+            return None, "apalache-mc not found"
+        return ("The outcome is: NoError" in p.stdout), p.stdout[-1500:]
+    finally:
+        shutil.rmtree(d, ignore_errors=True)
+
+
+def run_tlapm(module, timeout=900):
+    """TLAPS on spec/proofs/<module>.tla: returns (ok, summary line)."""
+    d = tempfile.mkdtemp(prefix="vtlaps_", dir=scratch_root())
+    try:
+        shutil.copy(os.path.join(SPEC_DIR, "proofs", module + ".tla"), d)
+        try:
+            p = subprocess.run(["tlapm", "--threads", "16", module + ".tla"], cwd=d, stdout=subprocess.PIPE, stderr=subprocess.STDOUT, text=True, timeout=timeout)
+        except subprocess.TimeoutExpired:
+            return None, "timeout after %ds" % timeout
+        except FileNotFoundError:
+            return None, "tlapm not found"
+        m = re.search(r"All (\d+) obligations? proved", p.stdout)
+        return (m is not None), (m.group(0) if m else p.stdout[-600:])
+    finally:
+        shutil.rmtree(d, ignore_errors=True)
